@@ -124,7 +124,13 @@ class Pervaporation:
         permeate_composition = get_permeate_composition_from_fluxes(initial_fluxes)
 
         d = 1
+        iteration = 0
         while d >= precision:
+            iteration += 1
+            if iteration > 10000:
+                raise ValueError(
+                    "Partial fluxes are not defined in the stated conditions range"
+                )
             try:
                 permeate_composition_new = get_permeate_composition_from_fluxes(
                     self.get_partial_fluxes_from_permeate_composition(
